@@ -238,3 +238,169 @@ Theorem C16_apply_key_variant : forall key variant,
   accepts_exactly (dom_apply_key_variant key variant) (apply_key_variant key variant).
 Proof. exact apply_key_variant_domain. Qed.
 Print Assumptions C16_apply_key_variant.
+
+(* ------------------------------------------------------------------ *)
+(* the domain predicates used above, spelled out                        *)
+Theorem C16_domains_explicit :
+  (forall s, dec_str s <-> Forall (fun c => 48 <= c <= 57) s) /\
+  (forall c, hex_char c <-> (48 <= c <= 57 \/ 65 <= c <= 70 \/ 97 <= c <= 102)) /\
+  (forall s, af_str s <-> Forall (fun c => 65 <= c <= 70) s) /\
+  (forall k, dom_tdes_key k <-> (length k = 8 \/ length k = 16 \/ length k = 24)%nat) /\
+  (forall k, dom_aes_key k <-> (length k = 16 \/ length k = 24 \/ length k = 32)%nat) /\
+  (forall pin pan, dom_encode_pinblock_iso_0 pin pan <->
+     ((4 <= length pin <= 12)%nat /\ dec_str pin) /\ ((13 <= length pan)%nat /\ dec_str pan)) /\
+  (forall pin, dom_encode_pinblock_iso_2 pin <-> (4 <= length pin <= 12)%nat /\ dec_str pin) /\
+  (forall pin pan, dom_encode_pinblock_iso_3 pin pan <->
+     ((4 <= length pin <= 12)%nat /\ dec_str pin) /\ ((13 <= length pan)%nat /\ dec_str pan)) /\
+  (forall pin, dom_encode_pin_field_iso_4 pin <-> (4 <= length pin <= 12)%nat /\ dec_str pin) /\
+  (forall pan, dom_encode_pan_field_iso_4 pan <-> (1 <= length pan <= 19)%nat /\ dec_str pan) /\
+  (forall key pin pan, dom_encipher_pinblock_iso_4 key pin pan <->
+     (length key = 16 \/ length key = 24 \/ length key = 32)%nat /\
+     ((4 <= length pin <= 12)%nat /\ dec_str pin) /\ ((1 <= length pan <= 19)%nat /\ dec_str pan)) /\
+  (forall pinblock pan, dom_decode_pinblock_pan pinblock pan <->
+     ((13 <= length pan)%nat /\ dec_str pan) /\ length pinblock = 8%nat) /\
+  (forall key pin_block pan, dom_decipher_pinblock_iso_4 key pin_block pan <->
+     (length key = 16 \/ length key = 24 \/ length key = 32)%nat /\ length pin_block = 16%nat /\
+     ((1 <= length pan <= 19)%nat /\ dec_str pan)) /\
+  (forall cvk pan expiry service_code, dom_generate_cvv cvk pan expiry service_code <->
+     length cvk = 16%nat /\ ((length pan <= 19)%nat /\ dec_str pan) /\
+     (length expiry = 4%nat /\ dec_str expiry) /\
+     (length service_code = 3%nat /\ dec_str service_code)) /\
+  (forall pvk pvki pin pan, dom_generate_visa_pvv pvk pvki pin pan <->
+     (length pvk = 8 \/ length pvk = 16 \/ length pvk = 24)%nat /\
+     (length pvki = 1%nat /\ dec_str pvki) /\ (length pin = 4%nat /\ dec_str pin) /\
+     ((12 <= length pan)%nat /\ dec_str pan)) /\
+  (forall pvk table digits pan o l pan_pad, dom_generate_ibm3624 pvk table digits pan o l pan_pad <->
+     (length pvk = 8 \/ length pvk = 16 \/ length pvk = 24)%nat /\
+     (length table = 16%nat /\ dec_str table) /\
+     ((4 <= length digits <= 16)%nat /\ dec_str digits) /\
+     ((length pan <= 19)%nat /\ dec_str pan) /\
+     (exists c, pan_pad = [c] /\ hex_char c) /\
+     (l = 0%nat \/ (o + l <= length pan)%nat)) /\
+  (forall key padding (aes : bool), dom_generate_cbc_mac key padding aes <->
+     (if aes then (length key = 16 \/ length key = 24 \/ length key = 32)%nat
+      else (length key = 8 \/ length key = 16 \/ length key = 24)%nat) /\
+     (padding = 1 \/ padding = 2 \/ padding = 3)) /\
+  (forall key1 key2 padding, dom_generate_retail_mac key1 key2 padding <->
+     (length key1 = 8 \/ length key1 = 16 \/ length key1 = 24)%nat /\
+     (length key2 = 8 \/ length key2 = 16 \/ length key2 = 24)%nat /\
+     (padding = 1 \/ padding = 2 \/ padding = 3)) /\
+  (forall key data, dom_tdes_ecb key data <->
+     (length key = 8 \/ length key = 16 \/ length key = 24)%nat /\
+     (0 < length data)%nat /\ (length data mod 8 = 0)%nat) /\
+  (forall key iv data, dom_tdes_cbc key iv data <->
+     (length key = 8 \/ length key = 16 \/ length key = 24)%nat /\ length iv = 8%nat /\
+     (0 < length data)%nat /\ (length data mod 8 = 0)%nat) /\
+  (forall key data, dom_aes_ecb key data <->
+     (length key = 16 \/ length key = 24 \/ length key = 32)%nat /\
+     (0 < length data)%nat /\ (length data mod 16 = 0)%nat) /\
+  (forall key iv data, dom_aes_cbc key iv data <->
+     (length key = 16 \/ length key = 24 \/ length key = 32)%nat /\ length iv = 16%nat /\
+     (0 < length data)%nat /\ (length data mod 16 = 0)%nat) /\
+  (forall key, dom_generate_kcv key <-> (length key = 8 \/ length key = 16 \/ length key = 24)%nat) /\
+  (forall key variant, dom_apply_key_variant key variant <->
+     (length key = 8 \/ length key = 16 \/ length key = 24)%nat /\ (0 <= variant <= 31)%Z).
+Proof. exact domains_explicit. Qed.
+Print Assumptions C16_domains_explicit.
+
+(* ------------------------------------------------------------------ *)
+(* the cipher premises are satisfiable                                  *)
+Example C16_ciphers_exist :
+  (cipher_ok toy_tdes /\ bs toy_tdes = 8%nat /\ forall k, valid_key toy_tdes k = tdes_valid_key k) /\
+  (cipher_ok toy_aes /\ bs toy_aes = 16%nat /\ forall k, valid_key toy_aes k = aes_valid_key k).
+Proof.
+  split; split; [exact (tdes_ok toy_des toy_des_ok)|split; reflexivity
+                |exact toy_aes_ok|split; reflexivity].
+Qed.
+
+(* ... and so are the domains: a well-formed argument set is accepted by
+   every function *)
+Example C16_good_inputs_accepted :
+  all_ok (pin_calls good_pin) = true /\ all_ok (pan_calls good_pan) = true /\
+  all_ok (ibm_calls chr_F 0 16) = true /\
+  (* an empty window is accepted at any offset: len(pan[o:o+0]) = 0 *)
+  all_ok (ibm_calls chr_F 40 0) = true /\
+  is_ok (generate_cbc_mac toy_tdes toy_aes key16 [1; 2; 3] 3 None false) = true /\
+  is_ok (generate_cbc_mac toy_tdes toy_aes key16 [] 1 (Some 4%nat) true) = true /\
+  is_ok (generate_retail_mac toy_tdes key16 key16 [1; 2; 3] 2 None) = true /\
+  is_ok (encrypt_tdes_cbc toy_tdes key16 (repeat 0 8) key16) = true /\
+  is_ok (decrypt_aes_ecb toy_aes key16 key16) = true /\
+  is_ok (generate_kcv toy_tdes key16 3) = true /\
+  is_ok (apply_key_variant key16 31) = true.
+Proof. vm_compute. repeat split. Qed.
+
+(* ------------------------------------------------------------------ *)
+(* C16_hostile: concrete hostile inputs are rejected with ValueError   *)
+(* every PIN-taking function, on "12\uFF134", "12\uFF114", "12\u06634", "+123", "-123", "12 4",
+   " 123", "123\n", "1234\n", "12\x004", "1_23", "123\u00B2", "123", 17 digits, "" *)
+Example C16_hostile_pins :
+  forallb (fun pin => all_value_error (pin_calls pin)) hostile_pins = true.
+Proof. vm_compute. reflexivity. Qed.
+
+(* every PAN-taking function, on the same edits of a 16-digit PAN *)
+Example C16_hostile_pans :
+  forallb (fun pan => all_value_error (pan_calls pan)) hostile_pans = true.
+Proof. vm_compute. reflexivity. Qed.
+
+Example C16_hostile_fullwidth_digit :
+  encode_pinblock_iso_0 [49; 50; 65297; 52] good_pan = Err ValueError /\
+  encode_pin_field_iso_4 [49; 50; 65297; 52] good_tape8 = Err ValueError.
+Proof. split; vm_compute; reflexivity. Qed.
+
+Example C16_hostile_arabic_indic_digit :
+  encode_pinblock_iso_2 [49; 50; 1635; 52] = Err ValueError /\
+  generate_visa_pvv toy_tdes key16 [49] [49; 50; 1635; 52] good_pan = Err ValueError.
+Proof. split; vm_compute; reflexivity. Qed.
+
+Example C16_hostile_sign_space_newline_nul :
+  encode_pinblock_iso_0 [43; 49; 50; 51] good_pan = Err ValueError /\
+  encode_pinblock_iso_0 [49; 50; 32; 52] good_pan = Err ValueError /\
+  encode_pinblock_iso_0 [49; 50; 51; 10] good_pan = Err ValueError /\
+  encode_pinblock_iso_0 [49; 50; 51; 52; 10] good_pan = Err ValueError /\
+  encode_pinblock_iso_0 [49; 50; 0; 52] good_pan = Err ValueError.
+Proof. repeat split; vm_compute; reflexivity. Qed.
+
+(* pad character "g", "G", " ", "\n", "\uFF21"; a pad of two characters; an empty pad *)
+Example C16_hostile_pan_pad :
+  forallb (fun pad => all_value_error (ibm_calls pad 0 16))
+          [[103]; [71]; [32]; [10]; [65313]; [70; 70]; []] = true.
+Proof. vm_compute. reflexivity. Qed.
+
+(* a validation window reaching past the 16-digit PAN *)
+Example C16_hostile_window :
+  all_value_error (ibm_calls chr_F 10 7) = true /\ all_value_error (ibm_calls chr_F 0 17) = true /\
+  all_value_error (ibm_calls chr_F 17 1) = true /\ all_ok (ibm_calls chr_F 10 6) = true.
+Proof. vm_compute. repeat split. Qed.
+
+(* expiry / service code / key index / table *)
+Example C16_hostile_card_fields :
+  generate_cvv toy_tdes key16 good_pan [57; 57; 49; 10] [50; 50; 48] = Err ValueError /\
+  generate_cvv toy_tdes key16 good_pan [57; 57; 49; 50] [50; 50; 65296] = Err ValueError /\
+  generate_cvv toy_tdes key16 good_pan [57; 57; 49; 50; 51] [50; 50; 48] = Err ValueError /\
+  generate_cvv toy_tdes (key16 ++ [0]) good_pan [57; 57; 49; 50] [50; 50; 48] = Err ValueError /\
+  generate_visa_pvv toy_tdes key16 [65] good_pin good_pan = Err ValueError /\
+  generate_visa_pvv toy_tdes key16 [49; 49] good_pin good_pan = Err ValueError /\
+  generate_ibm3624_pin toy_tdes key16 (65 :: tl good_table) good_pin good_pan 0 16 chr_F
+    = Err ValueError /\
+  generate_ibm3624_pin toy_tdes key16 (tl good_table) good_pin good_pan 0 16 chr_F
+    = Err ValueError.
+Proof. repeat split; vm_compute; reflexivity. Qed.
+
+(* keys, IVs, data sizes, padding method, key variant *)
+Example C16_hostile_sizes :
+  encrypt_tdes_ecb toy_tdes (tl key16) key16 = Err ValueError /\
+  encrypt_tdes_ecb toy_tdes key16 (tl key16) = Err ValueError /\
+  encrypt_tdes_ecb toy_tdes key16 [] = Err ValueError /\
+  encrypt_aes_cbc toy_aes key16 (tl key16) key16 = Err ValueError /\
+  decrypt_aes_cbc toy_aes (firstn 8 key16) key16 key16 = Err ValueError /\
+  generate_cbc_mac toy_tdes toy_aes key16 [1; 2; 3] 0 None false = Err ValueError /\
+  generate_cbc_mac toy_tdes toy_aes key16 [1; 2; 3] 4 None true = Err ValueError /\
+  generate_cbc_mac toy_tdes toy_aes (firstn 8 key16) [1; 2; 3] 1 None true = Err ValueError /\
+  generate_retail_mac toy_tdes key16 (tl key16) [1; 2; 3] 1 None = Err ValueError /\
+  generate_kcv toy_tdes (tl key16) 2 = Err ValueError /\
+  apply_key_variant key16 32 = Err ValueError /\
+  apply_key_variant key16 (-1) = Err ValueError /\
+  encipher_pinblock_iso_4 toy_aes (firstn 8 key16) good_pin good_pan good_tape8 = Err ValueError /\
+  decipher_pinblock_iso_4 toy_aes key16 (key16 ++ key16) good_pan = Err ValueError /\
+  decode_pinblock_iso_2 (tl key16) = Err ValueError.
+Proof. repeat split; vm_compute; reflexivity. Qed.
